@@ -150,11 +150,12 @@ def clone_history_module(idx, shape, entry, named_mask, script):
 # ------------------------------------------------------------------------------------------------
 # C08
 # ------------------------------------------------------------------------------------------------
-def ops_module(idx, n, kind, entry, ops=None, generic=False, bounds=None, selfbound=None):
-    """struct with n Tm fields deriving all 22 operator traits; driver exercises every form"""
+def ops_module(idx, n, kind, entry, ops=None, generic=False, bounds=None, selfbound=None, leaf="Tm", repr_=None):
+    """struct with n Tm fields deriving all 22 operator traits; driver exercises every form.
+    leaf "Tc": the Copy, alignment-1 guise of the term algebra (needed for #[repr(packed)])"""
     ops = ops or BINOPS
     traits = list(ops) + [o + "Assign" for o in ops] + ["Neg", "Not"]
-    ty = "X" if generic else "::dx_support::Tm"
+    ty = "X" if generic else "::dx_support::" + leaf
     g = "<X>" if generic else ""
     wh = ""
     only = ""
@@ -165,7 +166,8 @@ def ops_module(idx, n, kind, entry, ops=None, generic=False, bounds=None, selfbo
         g = "<X: ::dx_support::Rel<Self> + Only<Self>>"
     elif generic and selfbound == "where":
         wh = " where X: ::dx_support::Rel<Self> + Only<Self>"
-    TT = "T<::dx_support::Tm>" if generic else "T"
+    TT = ("T<::dx_support::%s>" % leaf) if generic else "T"
+    mkleaf = "tm" if leaf == "Tm" else "::dx_support::tc"
     if kind == "unit":
         decl = "pub struct T%s;" % g if not generic else None
     elif kind == "named":
@@ -185,16 +187,21 @@ def ops_module(idx, n, kind, entry, ops=None, generic=False, bounds=None, selfbo
             decl = "pub struct T%s { %s }" % (g, ", ".join(("%sf%d: %s" % (fa if j == n - 1 else "", j, ty)) for j in range(n)))
         else:
             decl = "pub struct T%s(%s);" % (g, ", ".join(((fa if j == n - 1 else "") + ty) for j in range(n)))
-    lines = ["pub mod m%d {" % idx, "    use ::dx_support::{tm, Tm};", only, "    %s %s" % (derive_head(dtraits, entry), decl)]
+    if repr_:
+        decl = "#[repr(%s)] %s" % (repr_, decl)
+    lines = ["pub mod m%d {" % idx, "    #[allow(unused_imports)] use ::dx_support::{tm, Tm};", only, "    %s %s" % (derive_head(dtraits, entry), decl)]
 
     def ctor(c):
-        args = ["tm(\"%s%d\")" % (c, j) for j in range(n)]
+        args = ["%s(\"%s%d\")" % (mkleaf, c, j) for j in range(n)]
         if kind == "unit":
             return "T"
         if kind == "named":
             return "T { %s }" % ", ".join("f%d: %s" % (j, a) for j, a in enumerate(args))
         return "T(%s)" % ", ".join(args)
     acc = ["::std::string::String::from(t.f%d.0.as_str())" % j for j in range(n)] if kind == "named" else ["::std::string::String::from(t.%d.0.as_str())" % j for j in range(n)]
+    if leaf == "Tc":
+        acc = ["::dx_support::tc_str({ t.%s%d })" % ("f" if kind == "named" else "", j) for j in range(n)]
+    RESET = "::dx_support::tc_reset(); " if leaf == "Tc" else ""
     lines.append("    fn show(t: &%s) -> String { let v: Vec<String> = vec![%s]; ::dx_support::json_strs(&v) }" % (TT, ", ".join(acc)))
     lines.append("    pub fn run() -> String {\n        let mut out = String::new();")
 
@@ -206,21 +213,21 @@ def ops_module(idx, n, kind, entry, ops=None, generic=False, bounds=None, selfbo
         s = SYM[op]
         for lref in (False, True):
             for rref in (False, True):
-                lines.append("        { let a: %s = %s; let b: %s = %s; ::dx_support::take_log();" % (TT, ctor("a"), TT, ctor("b")))
+                lines.append("        { %slet a: %s = %s; let b: %s = %s; ::dx_support::take_log();" % (RESET, TT, ctor("a"), TT, ctor("b")))
                 lines.append("          let r = %sa %s %sb; let lg = ::dx_support::take_log();" % ("&" if lref else "", s, "&" if rref else ""))
                 emit("binop", [("op", "\"\\\"%s\\\"\"" % op), ("lref", "\"%s\"" % str(lref).lower()), ("rref", "\"%s\"" % str(rref).lower()),
                                ("result", "show(&r)"), ("log", "::dx_support::json_strs(&lg)"),
                                ("a_after", "show(&a)" if lref else "\"[]\""), ("b_after", "show(&b)" if rref else "\"[]\"")])
                 lines.append("        }")
         for rref in (False, True):
-            lines.append("        { let mut a: %s = %s; let b: %s = %s; ::dx_support::take_log();" % (TT, ctor("a"), TT, ctor("b")))
+            lines.append("        { %slet mut a: %s = %s; let b: %s = %s; ::dx_support::take_log();" % (RESET, TT, ctor("a"), TT, ctor("b")))
             lines.append("          a %s= %sb; let lg = ::dx_support::take_log();" % (s, "&" if rref else ""))
             emit("assignop", [("op", "\"\\\"%s\\\"\"" % op), ("rref", "\"%s\"" % str(rref).lower()), ("a_after", "show(&a)"),
                               ("log", "::dx_support::json_strs(&lg)"), ("b_after", "show(&b)" if rref else "\"[]\"")])
             lines.append("        }")
     for op in ("Neg", "Not"):
         for lref in (False, True):
-            lines.append("        { let a: %s = %s; ::dx_support::take_log();" % (TT, ctor("a")))
+            lines.append("        { %slet a: %s = %s; ::dx_support::take_log();" % (RESET, TT, ctor("a")))
             lines.append("          let r = %s%sa; let lg = ::dx_support::take_log();" % (SYM[op], "&" if lref else ""))
             emit("unop", [("op", "\"\\\"%s\\\"\"" % op), ("lref", "\"%s\"" % str(lref).lower()), ("result", "show(&r)"),
                           ("log", "::dx_support::json_strs(&lg)"), ("a_after", "show(&a)" if lref else "\"[]\"")])
@@ -239,7 +246,9 @@ def ty_of(side, rhs_self):
 LOCAL_OPERANDS = """    pub struct LT(pub String);
     impl ::core::clone::Clone for LT { fn clone(&self) -> Self { ::dx_support::log(format!("cloneL:{}", self.0)); LT(self.0.clone()) } }
     pub struct RT(pub String);
-    impl ::core::clone::Clone for RT { fn clone(&self) -> Self { ::dx_support::log(format!("cloneR:{}", self.0)); RT(self.0.clone()) } }"""
+    impl ::core::clone::Clone for RT { fn clone(&self) -> Self { ::dx_support::log(format!("cloneR:{}", self.0)); RT(self.0.clone()) } }
+    #[allow(dead_code)] impl LT { pub fn clone(&self) -> Self { ::dx_support::log("decoy:clone".to_string()); LT("decoy".to_string()) } }
+    #[allow(dead_code)] impl RT { pub fn clone(&self) -> Self { ::dx_support::log("decoy:clone".to_string()); RT("decoy".to_string()) } }"""
 
 
 def refty(t, isref):
@@ -249,10 +258,12 @@ def refty(t, isref):
 GENERIC_OPERANDS = """    pub struct LT<G>(pub String, pub ::core::marker::PhantomData<G>);
     impl<G> ::core::clone::Clone for LT<G> { fn clone(&self) -> Self { ::dx_support::log(format!("cloneL:{}", self.0)); LT(self.0.clone(), ::core::marker::PhantomData) } }
     pub struct RT<G>(pub String, pub ::core::marker::PhantomData<G>);
-    impl<G> ::core::clone::Clone for RT<G> { fn clone(&self) -> Self { ::dx_support::log(format!("cloneR:{}", self.0)); RT(self.0.clone(), ::core::marker::PhantomData) } }"""
+    impl<G> ::core::clone::Clone for RT<G> { fn clone(&self) -> Self { ::dx_support::log(format!("cloneR:{}", self.0)); RT(self.0.clone(), ::core::marker::PhantomData) } }
+    #[allow(dead_code)] impl<G> LT<G> { pub fn clone(&self) -> Self { ::dx_support::log("decoy:clone".to_string()); LT("decoy".to_string(), ::core::marker::PhantomData) } }
+    #[allow(dead_code)] impl<G> RT<G> { pub fn clone(&self) -> Self { ::dx_support::log("decoy:clone".to_string()); RT("decoy".to_string(), ::core::marker::PhantomData) } }"""
 
 
-def implop_module(idx, op, base, rhs_self, want_bin, want_assign, base_is_assign=False, generic=None):
+def implop_module(idx, op, base, rhs_self, want_bin, want_assign, base_is_assign=False, generic=None, spell_self=False):
     """user impl of `op` in base form (bl, br) carrying #[derive_ex(..)]; returns (source, request-for-inproc, descriptor)"""
     bl, br = base
     L, R = ty_of("l", rhs_self), ty_of("r", rhs_self)
@@ -269,13 +280,24 @@ def implop_module(idx, op, base, rhs_self, want_bin, want_assign, base_is_assign
     fn = FN[op]
     req = ([op] if want_bin else []) + ([op + "Assign"] if want_assign else [])
     attr = ", ".join(req)
+    rhs_txt = refty(R, br == "r")
+    if spell_self:
+        # the right operand written with `Self` (only possible when it is the self type itself, or a reference to it)
+        assert rhs_self
+        self_is_ref = (bl == "r") and not base_is_assign
+        if self_is_ref and br == "r":
+            rhs_txt = "Self"
+        elif not self_is_ref:
+            rhs_txt = "&Self" if br == "r" else "Self"
+        else:
+            raise ValueError("Rhs = T cannot be spelled through Self = &T")
     if base_is_assign:
         impl = ("impl%s ::core::ops::%sAssign<%s> for %s%s { fn %s_assign(&mut self, rhs: %s) { ::dx_support::log(\"call\".to_string()); "
-                "self.0 = format!(\"assigned({},{})\", self.0, rhs.0); } }" % (ig, op, refty(R, br == "r"), L, iw, fn, refty(R, br == "r")))
+                "self.0 = format!(\"assigned({},{})\", self.0, rhs.0); } }" % (ig, op, rhs_txt, L, iw, fn, rhs_txt))
     else:
         ctor = L.split("<")[0]
         impl = ("impl%s ::core::ops::%s<%s> for %s%s { type Output = %s; fn %s(self, rhs: %s) -> %s { ::dx_support::log(\"call\".to_string()); "
-                "%s(format!(\"base({},{})\", self.0, rhs.0)%s) } }" % (ig, op, refty(R, br == "r"), refty(L, bl == "r"), iw, L, fn, refty(R, br == "r"), L, ctor, mk2))
+                "%s(format!(\"base({},{})\", self.0, rhs.0)%s) } }" % (ig, op, rhs_txt, refty(L, bl == "r"), iw, L, fn, rhs_txt, L, ctor, mk2))
     only = ("    pub trait Only<U: ?::core::marker::Sized> {}\n    impl<%sG> Only<%sLT<G>> for G {}" % (("'x, ", "&'x ") if (bl == "r" and not base_is_assign) else ("", ""))) if generic else ""
     lines = ["pub mod m%d {" % idx, GENERIC_OPERANDS if generic else LOCAL_OPERANDS, only, "    #[::derive_ex::derive_ex(%s)] %s" % (attr, impl)]
     lines.append("    fn counts(lg: &[String]) -> (usize, usize, usize) { (lg.iter().filter(|s| *s == \"call\").count(), "
@@ -329,6 +351,15 @@ LEAF_TYPES = [("i32", ["7i32", "-3i32"]), ("f64", ["1.5f64", "-0.25f64"]), ("&'s
 INNER = "#[derive(Debug, Clone)] pub struct Inner { pub p: i32, pub q: i32 }"
 
 
+RUST_KEYWORDS = {"match", "type", "fn", "loop", "if", "else", "while", "for", "in", "let", "mut", "ref", "move", "return", "impl", "trait", "struct", "enum",
+                 "where", "as", "break", "continue", "const", "static", "unsafe", "use", "mod", "pub", "dyn", "async", "await", "true", "false", "extern", "box", "try", "yield", "macro"}
+
+
+def sn(name):
+    """a descriptor name as it has to be written in source (keywords as raw identifiers)"""
+    return ("r#" + name) if name in RUST_KEYWORDS else name
+
+
 def debug_module(idx, desc, entry, rnd):
     """desc: {"kind": "struct"|"enum", "variants": [{"name", "shape", "fields": [{"name", "ty": index into LEAF_TYPES, "dbg"}]}], "generic": bool}
     The twin (std derive, ignored fields deleted, same names) lives in a sub-module."""
@@ -339,14 +370,14 @@ def debug_module(idx, desc, entry, rnd):
     def fdecl(v, twin):
         fs = []
         for f in v["fields"]:
-            if twin and f["dbg"] == "ignore":
+            if twin and f["dbg"] in ("ignore", "both"):
                 continue
-            at = "" if twin or f["dbg"] == "none" else "#[debug(%s)] " % f["dbg"]
+            at = "" if twin or f["dbg"] == "none" else "#[debug(%s)] " % ("transparent, ignore" if f["dbg"] == "both" else f["dbg"])
             ty = LEAF_TYPES[f["ty"]][0] if not (gen and f.get("gen")) else "G"
             if twin and ty == "Inner":
                 ty = "super::Inner"
             vis = "pub " if kind == "struct" else ""
-            fs.append(at + vis + (("%s: " % f["name"]) if v["shape"] == "named" else "") + ty)
+            fs.append(at + vis + (("%s: " % sn(f["name"])) if v["shape"] == "named" else "") + ty)
         if v["shape"] == "named":
             return "{ " + ", ".join(fs) + " }"
         if v["shape"] == "tuple":
@@ -360,15 +391,15 @@ def debug_module(idx, desc, entry, rnd):
             v = desc["variants"][0]
             body = fdecl(v, twin)
             # a named / tuple struct whose every field was ignored keeps its braces / parens in the twin
-            return "%s pub struct %s%s %s%s" % (head, v["name"], g, body, "" if v["shape"] == "named" else ";")
-        vs = ", ".join("%s %s" % (v["name"], fdecl(v, twin)) for v in desc["variants"])
+            return "%s pub struct %s%s %s%s" % (head, sn(v["name"]), g, body, "" if v["shape"] == "named" else ";")
+        vs = ", ".join("%s %s" % (sn(v["name"]), fdecl(v, twin)) for v in desc["variants"])
         return "%s pub enum E%s { %s }" % (head, g, vs)
     lines.append("    " + item(False))
-    has_transparent = any(f["dbg"] == "transparent" for v in desc["variants"] for f in v["fields"])
+    has_transparent = any(f["dbg"] in ("transparent", "both") for v in desc["variants"] for f in v["fields"])
     lines.append("    pub mod twin { " + item(True) + " }")
     lines.append("    fn lines(s: &str) -> String { let v: Vec<String> = s.split('\\n').map(|x| x.to_string()).collect(); ::dx_support::json_strs(&v) }")
     lines.append("    pub fn run() -> String {\n        let mut out = String::new();")
-    tyname = lambda v: (v["name"] if kind == "struct" else "E::" + v["name"])
+    tyname = lambda v: (sn(v["name"]) if kind == "struct" else "E::" + sn(v["name"]))
     inst = "::<i32>" if gen else ""
     for vi, v in enumerate(desc["variants"]):
         nvals = max([len(LEAF_TYPES[f["ty"]][1]) for f in v["fields"]] + [1])
@@ -376,15 +407,15 @@ def debug_module(idx, desc, entry, rnd):
             vals = [LEAF_TYPES[f["ty"]][1][k % len(LEAF_TYPES[f["ty"]][1])] for f in v["fields"]]
 
             def ctor(path, twin):
-                fs = [(f, x) for f, x in zip(v["fields"], vals) if not (twin and f["dbg"] == "ignore")]
+                fs = [(f, x) for f, x in zip(v["fields"], vals) if not (twin and f["dbg"] in ("ignore", "both"))]
                 if v["shape"] == "named":
-                    return "%s { %s }" % (path, ", ".join("%s: %s" % (f["name"], x) for f, x in fs))
+                    return "%s { %s }" % (path, ", ".join("%s: %s" % (sn(f["name"]), x) for f, x in fs))
                 if v["shape"] == "tuple":
                     return "%s(%s)" % (path, ", ".join(x for f, x in fs))
                 return path
             lines.append("        {")
             lines.append("            let x = %s; let t = %s;" % (ctor(tyname(v), False), ctor("twin::" + tyname(v), True)))
-            tf = [(f, x) for f, x in zip(v["fields"], vals) if f["dbg"] == "transparent"]
+            tf = [(f, x) for f, x in zip(v["fields"], vals) if f["dbg"] in ("transparent", "both")]
             cmp_target = None
             if len(tf) == 1:
                 lines.append("            let tr: %s = %s;" % (LEAF_TYPES[tf[0][0]["ty"]][0], tf[0][1]))
@@ -411,7 +442,7 @@ def debug_module(idx, desc, entry, rnd):
 # ------------------------------------------------------------------------------------------------
 # C11 Default
 # ------------------------------------------------------------------------------------------------
-DV_SRC = {"none": None, "str": "\"abc\"", "path": "::dx_support::SRC7", "assoc_path": "::dx_support::Holder::SRC3",
+DV_SRC = {"none": None, "str": "\"abc\"", "path": "::dx_support::SRC7", "assoc_path": "::dx_support::Holder::SRC3", "into_path": "::dx_support::SRCI8",
           "call": "::dx_support::mk(5)", "block": "{ ::dx_support::mk(6) }", "method": "::dx_support::mk(4).same()", "int": "5", "neg": "-3"}
 DV_TY = {"int": "u8", "neg": "i8"}
 
@@ -522,8 +553,10 @@ DEREF_TYPES = [("::std::string::String", "::std::string::String::from(\"s\")", "
                ("u8", "3u8", "8u8"), ("::std::vec::Vec<u32>", "::std::vec![1u32]", "::std::vec![5u32, 6]"), ("&'static str", "\"x\"", "\"yy\"")]
 
 
-def deref_module(idx, named, ti, generic, entry, where=False):
+def deref_module(idx, named, ti, generic, entry, where=False, bounds=None):
     ty, v1, v2 = DEREF_TYPES[ti]
+    dlist = {None: ["Deref", "DerefMut"], "this_empty": ["Deref(bound())", "DerefMut(bound())"], "shared_empty": ["Deref", "DerefMut", "bound()"],
+             "this_dd": ["Deref(bound(..))", "DerefMut(bound(..))"], "this_pred": ["Deref(bound(G: ::core::clone::Clone))", "DerefMut(bound(G: ::core::clone::Clone, ..))"]}[bounds]
     fty = "G" if generic else ty
     g = ("<G: ::core::clone::Clone>" if where is False else "<G>") if generic else ""
     w = " where G: ::core::clone::Clone" if (generic and where) else ""
@@ -548,7 +581,7 @@ def deref_module(idx, named, ti, generic, entry, where=False):
         format!("{{\\"id\\":%d,\\"same_address\\":{},\\"target_is_field_type\\":{},\\"mut_same_address\\":{},\\"write_lands\\":{}}}\\n",
                 same_address, target_is_field_type, mut_same_address, write_lands)
     }
-}""" % (idx, derive_head(["Deref", "DerefMut"], entry), decl, TT, mk % v1, ty, acc, ty, TT, TT, ty, ty, acc, ty, TT, TT, v2, acc, v2, idx)
+}""" % (idx, derive_head(dlist, entry), decl, TT, mk % v1, ty, acc, ty, TT, TT, ty, ty, acc, ty, TT, TT, v2, acc, v2, idx)
 
 
 # ------------------------------------------------------------------------------------------------
